@@ -916,8 +916,8 @@ func (g *Gen) appendBuiltin(c *ssa.CallCommon, val ssa.Value) {
 	g.guard(implies(inplace, eq("(sl_cap "+r+")", "(sl_cap "+s+")")))
 	content := g.freshSig("appcontent", "() (Array Int "+es+")")
 	off := "(sl_off " + r + ")"
-	g.guard("(forall ((i Int)) (! (=> (and (<= 0 i) (< i (sl_len " + s + "))) (= (select " + content + " (+ " + off + " i)) (select (select " + ah + " (sl_arr " + s + ")) (+ (sl_off " + s + ") i)))) :pattern ((select " + content + " (+ " + off + " i)))))")
-	g.guard("(forall ((i Int)) (! (=> (and (<= 0 i) (< i " + elen + ")) (= (select " + content + " (+ " + off + " (sl_len " + s + ") i)) " + eat("i") + ")) :pattern ((select " + content + " (+ " + off + " (sl_len " + s + ") i)))))")
+	g.guard("(forall ((j Int)) (! (=> (and (<= " + off + " j) (< j (+ " + off + " (sl_len " + s + ")))) (= (select " + content + " j) (select (select " + ah + " (sl_arr " + s + ")) (+ (sl_off " + s + ") (- j " + off + "))))) :pattern ((select " + content + " j))))")
+	g.guard("(forall ((j Int)) (! (=> (and (<= (+ " + off + " (sl_len " + s + ")) j) (< j (+ " + off + " (sl_len " + s + ") " + elen + "))) (= (select " + content + " j) " + eat("(- j (+ "+off+" (sl_len "+s+")))") + ")) :pattern ((select " + content + " j))))")
 	g.guard(implies(inplace, "(forall ((j Int)) (! (=> (or (< j (+ (sl_off "+s+") (sl_len "+s+"))) (>= j (+ (sl_off "+s+") (sl_len "+r+")))) (= (select "+content+" j) (select (select "+ah+" (sl_arr "+s+")) j))) :pattern ((select "+content+" j))))"))
 	g.assignHeap(ahName, "(store "+ah+" "+arr+" "+content+")")
 	g.assignHeap("alloc", "(ite (> (atime "+arr+") "+al+") (atime "+arr+") "+al+")")
@@ -949,7 +949,7 @@ func (g *Gen) copyBuiltin(c *ssa.CallCommon, val ssa.Value) {
 	g.guard(eq(n, "(ite (<= (sl_len "+dst+") "+slen+") (sl_len "+dst+") "+slen+")"))
 	content := g.freshSig("copycontent", "() (Array Int "+es+")")
 	doff := "(sl_off " + dst + ")"
-	g.guard("(forall ((i Int)) (! (=> (and (<= 0 i) (< i " + n + ")) (= (select " + content + " (+ " + doff + " i)) " + sat("i") + ")) :pattern ((select " + content + " (+ " + doff + " i)))))")
+	g.guard("(forall ((j Int)) (! (=> (and (<= " + doff + " j) (< j (+ " + doff + " " + n + "))) (= (select " + content + " j) " + sat("(- j "+doff+")") + ")) :pattern ((select " + content + " j))))")
 	g.guard("(forall ((j Int)) (! (=> (or (< j " + doff + ") (>= j (+ " + doff + " " + n + "))) (= (select " + content + " j) (select (select " + ah + " (sl_arr " + dst + ")) j))) :pattern ((select " + content + " j))))")
 	g.assignHeap(ahName, "(ite (= "+n+" 0) "+ah+" (store "+ah+" (sl_arr "+dst+") "+content+"))")
 }
